@@ -98,6 +98,9 @@ def run_case(scn, drv):
         feats.append('setup-error:' + impl.err_class(e))
         return r
     tg = rec['tg']
+    if len(rec['op'].c) == 0:
+        feats.append('skip:no-active-asset')      # nothing inside the horizon: neither problem can be optimised
+        return r
     interval = interval_of(scn, tg)
     feats.append('interval:' + interval)
     try:
